@@ -37,6 +37,7 @@ TXT_Q = Cls('NARROW', minus='\\')            # quick: printable ASCII + a few sp
 TXT_NL = Cls('NARROW', minus='\\', plus='\n')
 TXT_BS = Cls('NARROW')                         # with backslash
 WIDE = Cls('BMP', plus='\n')
+CRIT = __import__('harness.common', fromlist=['Enum']).Enum("a\n' \\")   # the critical alphabet of the property, for longer texts
 
 
 def _in_known_region(site, text, stored):
@@ -94,7 +95,7 @@ def site_roundtrip(site, K, style, cls='quick'):
     """text (K symbolic chars) written in `style` at `site`: stored exactly / normalised; .dbml re-parses to the
     same stored text and the same content; rendering the re-parsed database is byte-identical (fixpoint)."""
     tmpl, getter, is_note, kw = SITES[site]
-    dom = {'quick': TXT_Q, 'nl': TXT_NL, 'bs': TXT_BS, 'wide': WIDE}[cls]
+    dom = {'quick': TXT_Q, 'nl': TXT_NL, 'bs': TXT_BS, 'wide': WIDE, 'crit': CRIT}[cls]
     if style != 'triple' and cls in ('nl', 'wide'):
         pass  # newline is written as the \n escape in single-line styles
 
@@ -140,7 +141,7 @@ def site_roundtrip(site, K, style, cls='quick'):
 def styles_agree(site, K, cls='quick'):
     """the same text written in the three string styles is stored identically"""
     tmpl, getter, is_note, kw = SITES[site]
-    dom = {'quick': TXT_Q, 'nl': TXT_NL, 'bs': TXT_BS, 'wide': WIDE}[cls]
+    dom = {'quick': TXT_Q, 'nl': TXT_NL, 'bs': TXT_BS, 'wide': WIDE, 'crit': CRIT}[cls]
 
     def body(a):
         text = text_of(a, 'c', K)
@@ -286,6 +287,8 @@ def instances(tier):
         add(f'rt/{site}/double/bs/K2', 'site_roundtrip', {'site': site, 'K': 2, 'style': 'double', 'cls': 'bs'}, 300)
     for site in ('table_note_block', 'string_default', 'project_field'):
         add(f'styles/{site}/K2', 'styles_agree', {'site': site, 'K': 2, 'cls': 'bs'}, 300)
+    for site in ('table_note_block', 'sticky_note', 'project_note'):
+        add(f'rt/{site}/triple/crit/K3', 'site_roundtrip', {'site': site, 'K': 3, 'style': 'triple', 'cls': 'crit'}, 280)
     add('norm_lemma/K3', 'norm_lemma', {'K': 3}, 240)
     add('sql_note/table/K2', 'sql_note', {'site': 'table_note_inline', 'K': 2}, 240)
     add('sql_note/column/K2', 'sql_note', {'site': 'column_note', 'K': 2}, 240)
@@ -295,6 +298,8 @@ def instances(tier):
             add(f'rt/{site}/triple/wide/K3', 'site_roundtrip', {'site': site, 'K': 3, 'style': 'triple', 'cls': 'wide'}, 1200)
             add(f'rt/{site}/double/bs/K3', 'site_roundtrip', {'site': site, 'K': 3, 'style': 'double', 'cls': 'bs'}, 1200)
             add(f'styles/{site}/K3', 'styles_agree', {'site': site, 'K': 3, 'cls': 'bs'}, 1200)
+        for site in SITES:
+            add(f'rt/{site}/triple/crit/K4', 'site_roundtrip', {'site': site, 'K': 4, 'style': 'triple', 'cls': 'crit'}, 3000)
         add('rt/table_note_block/triple/nl/K4', 'site_roundtrip', {'site': 'table_note_block', 'K': 4, 'style': 'triple', 'cls': 'nl'}, 2400)
         add('rt/string_default/single/K4', 'site_roundtrip', {'site': 'string_default', 'K': 4, 'style': 'single'}, 2400)
         add('norm_lemma/K4', 'norm_lemma', {'K': 4}, 1200)
